@@ -130,8 +130,7 @@ func (v *verdict) fail(class, format string, a ...any) verdict {
 }
 
 // judge compares one execution with what the property text forces.
-func judge(c Case, o observed) verdict {
-	var v verdict
+func judge(c Case, o observed) (v verdict) {
 	if o.harnessErr != "" {
 		// cannot happen unless the work directory is broken; never blamed on the library
 		v.outcomes = append(v.outcomes, "harness-error")
@@ -165,8 +164,33 @@ func judge(c Case, o observed) verdict {
 	if o.panicked != "" {
 		return v.fail("panic", "building or sending the request panicked: %s", o.panicked)
 	}
+	// environment faults: once a scripted source has actually returned an injected error the
+	// library may refuse to build or fail to send; a success is held to the full oracle below.
+	// A source that lied (Seek claiming success without moving, or failing after moving) broke
+	// its own contract: whatever follows is MAY.
+	faulted := o.delivered > 0
+	if o.lies > 0 {
+		v.outcomes = append(v.outcomes, "undefined:source-lied")
+		return v
+	}
+	defer func() {
+		if faulted && v.class != "" {
+			v.class += "/after-source-fault"
+		}
+	}()
 	if o.buildErr != "" {
+		if faulted {
+			v.outcomes = append(v.outcomes, "fault:build-refused")
+			return v
+		}
 		return v.fail("build-error", "CreateHttpRequest failed for a well-formed %s payload under %q: %s", c.Payload, c.Media, o.buildErr)
+	}
+	if o.sendErr != "" && faulted {
+		v.outcomes = append(v.outcomes, "fault:send-failed")
+		return v
+	}
+	if faulted {
+		v.outcomes = append(v.outcomes, "fault:delivered-and-sent")
 	}
 	if o.sendErr != "" {
 		return v.fail("send-error", "the built request could not be sent: %s", o.sendErr)
@@ -323,6 +347,10 @@ func judge(c Case, o observed) verdict {
 	}
 	for level, cl := range []string{"multipart-parts", "multipart-filename", "multipart-content"} {
 		if !sameMultiset(multiset(wantParts, level), multiset(got, level)) {
+			if level == 2 && faulted && windowFillingErrorDropped(c, got) {
+				cl += "/after-source-fault/error-with-window-filling-read-dropped"
+				faulted = false // the class is complete
+			}
 			return v.fail(cl, "parts sent: %s; parts demanded: %s", describe(got), describe(wantParts))
 		}
 	}
@@ -461,4 +489,50 @@ func classifyPartType(c Case, got []part) string {
 		return "part-content-type/short-content-zero-padded+short-first-read"
 	}
 	return "part-content-type"
+}
+
+// windowFillingErrorDropped is the predicate of a defect of the pinned tree: an undeclared
+// upload file whose Read call that completes the 512-byte sniffing window returns its data
+// together with an error, does not repeat the error and reports EOF afterwards. io.ReadFull
+// discards an error that arrives with the last bytes it asked for, so the part is sent with
+// exactly the first 512 bytes and the call succeeds. True iff every scripted file of the case
+// that lost content matches this and the parts sent are exactly the demanded ones with those
+// files cut at 512 bytes.
+func windowFillingErrorDropped(c Case, got []part) bool {
+	var want []part
+	hit := false
+	for _, f := range c.Form {
+		for _, val := range f.Values {
+			want = append(want, part{name: string(f.Name), body: string(val)})
+		}
+	}
+	for _, ff := range c.Files {
+		for _, f := range ff.Files {
+			data := content(f.Kind, f.Len)
+			ct := f.Declared
+			if ct == "" {
+				ct = sniff(data)
+			}
+			body := data
+			if f.Src == "env" && f.Env != nil && f.Declared == "" && f.Env.FaultStyle == "once-then-eof" && f.Env.FaultAt > 0 && f.Len > 512 {
+				cum := 0
+				for k := 1; cum < 512; k++ {
+					m := 512 - cum
+					if f.Env.Chunk > 0 && m > f.Env.Chunk {
+						m = f.Env.Chunk
+					}
+					cum += m
+					if k == f.Env.FaultAt {
+						if cum == 512 {
+							body = data[:512]
+							hit = true
+						}
+						break
+					}
+				}
+			}
+			want = append(want, part{file: true, name: string(ff.Name), filename: f.Base, body: string(body), ctype: ct})
+		}
+	}
+	return hit && sameMultiset(multiset(want, 3), multiset(got, 3))
 }
